@@ -108,8 +108,13 @@ structure St where
   tax : Nat → Option TaxCfg
   limit : Nat → Option LimitCfg
   usage : Nat → Option Usage
-  /-- archived checkpoints `(token, nonce, estimate)` (PastEthSignatureCheckpoint) -/
-  archive : List (Nat × Nat × Nat)
+  /-- archived checkpoints `(token, nonce, estimate, content variant)` (PastEthSignatureCheckpoint);
+      variant 0 is the content the chain itself gave the batch -/
+  archive : List (Nat × Nat × Nat × Nat)
+  /-- ghost: every checkpoint the chain ever published for signing (stored as a batch's BytesToSign) -/
+  issued : List (Nat × Nat × Nat × Nat)
+  /-- validators jailed through bad-signature evidence -/
+  jailed : List Nat
   lastObserved : Nat
   claims : List (Nat × Claim)
   /-- ghost history -/
@@ -124,7 +129,7 @@ structure St where
 def St.init : St :=
   { pool := [], batches := [], bal := fun _ _ => 0, escrow := fun _ => 0, supply := fun _ => 0,
     lastTx := 0, lastBatch := 0, tax := fun _ => none, limit := fun _ => none, usage := fun _ => none,
-    archive := [], lastObserved := 0, claims := [], accepted := [], refunded := [], burned := [],
+    archive := [], issued := [], jailed := [], lastObserved := 0, claims := [], accepted := [], refunded := [], burned := [],
     minted := fun _ => 0, funded := fun _ => 0, winLog := fun _ => [] }
 
 inductive Res where
@@ -274,7 +279,8 @@ def buildOne (s : St) (f : Fault) (tok time : Nat) : St × Fault × Res :=
   ({ s with pool := s.pool.filter (fun t => !(t.token == tok)) ++ mine.drop OutgoingTxBatchSize,
             batches := b :: s.batches,
             lastBatch := nonce,
-            archive := (tok, nonce, 0) :: s.archive }, f3, .ok)
+            archive := (tok, nonce, 0, 0) :: s.archive,
+            issued := (tok, nonce, 0, 0) :: s.issued }, f3, .ok)
 
 /-- `CancelOutgoingTXBatch`. -/
 def cancelBatch (s : St) (f : Fault) (tok nonce : Nat) : St × Fault × Res :=
@@ -336,7 +342,16 @@ def setEstimate (s : St) (f : Fault) (tok nonce est : Nat) : St × Fault × Res 
     let fail1 := (f.tick tChainInfo).2
     if fail1 then (s, f1, .rejected) else
     ({ s with batches := s.batches.map (fun x => if x.token == tok && x.nonce == nonce then { x with estimate := est } else x),
-              archive := (tok, nonce, est) :: s.archive }, f1, .ok)
+              archive := (tok, nonce, est, 0) :: s.archive,
+              issued := (tok, nonce, est, 0) :: s.issued }, f1, .ok)
+
+/-- `MsgSubmitBadSignatureEvidence` → `checkBadSignatureEvidenceInternal`: `c` is the checkpoint of the
+    submitted batch, `signer` the validator whose registered remote key signed it (if any). -/
+def evidence (s : St) (c : Nat × Nat × Nat × Nat) (signer : Option Nat) : St × Res :=
+  if s.archive.contains c then (s, .rejected) else
+  match signer with
+  | none => (s, .rejected)
+  | some v => if s.jailed.contains v then (s, .ok) else ({ s with jailed := v :: s.jailed }, .ok)
 
 /-- coins arriving from outside the bridge (faucet / native mint) -/
 def fund (s : St) (u tok amt : Nat) : St :=
